@@ -434,3 +434,88 @@ func translateCanStaleOnError(intByName map[string]*ast.File, intCE *cenv, out *
 	fmt.Fprintf(out, "Fixpoint src_can_stale_on_error_loop (f : freshness) (sies : list (option Z)) (now : Z) : bool :=\n  match sies with\n  | [] => false\n  | None :: rest => src_can_stale_on_error_loop f rest now\n  | Some dur :: rest =>\n  %s\n  if %s then true else src_can_stale_on_error_loop f rest now\n  end.\n\n", strings.Join(lets, "\n  "), c)
 	fmt.Fprintf(out, "Definition src_can_stale_on_error (f : freshness) (sies : list (option Z)) (now : Z) : bool :=\n  if (Z.of_nat (List.length sies)) =? 0 then false else src_can_stale_on_error_loop f sies now.\n\n")
 }
+
+// roundTripTimed (named results): clock readings and the origin call in source order; `if resp != nil { … }` splits on the
+// reply; the bare `return` hands (resp, err) — as one origin_reply — and the two instants to the continuation c.
+func translateRoundTripTimed(rootByName map[string]*ast.File, out *strings.Builder) {
+	fd := findFunc(rootByName, "roundtripper.go", "roundTripTimed")
+	if fd.Type.Results == nil || len(fd.Type.Results.List) != 3 && len(fd.Type.Results.List) != 4 {
+		die("roundTripTimed: expected named results (resp, start, end, err)")
+	}
+	var rnames []string
+	for _, f := range fd.Type.Results.List {
+		for _, n := range f.Names {
+			rnames = append(rnames, n.Name)
+		}
+	}
+	if len(rnames) != 4 {
+		die("roundTripTimed: expected four named results")
+	}
+	respN, startN, endN, errN := rnames[0], rnames[1], rnames[2], rnames[3]
+	vars := map[string]string{}
+	var tr func(list []ast.Stmt, resp string) string // resp: "" unknown (before the call), "nil", or the Gallina response term
+	called := false
+	tr = func(list []ast.Stmt, resp string) string {
+		if len(list) == 0 {
+			die("roundTripTimed: falls off the end")
+		}
+		st, rest := list[0], list[1:]
+		switch s := st.(type) {
+		case *ast.AssignStmt:
+			if len(s.Rhs) == 1 && s.Tok == token.ASSIGN {
+				rhs := exprString(s.Rhs[0])
+				if len(s.Lhs) == 1 && rhs == "r.clock.Now()" {
+					v := "t_" + exprString(s.Lhs[0])
+					vars[exprString(s.Lhs[0])] = v
+					return fmt.Sprintf("Now (fun %s =>\n  %s)", v, tr(rest, resp))
+				}
+				if len(s.Lhs) == 2 && rhs == "r.upstream.RoundTrip(req)" && exprString(s.Lhs[0]) == respN && exprString(s.Lhs[1]) == errN && !called {
+					called = true
+					return fmt.Sprintf("Origin q (fun rep =>\n  %s)", tr(rest, "?"))
+				}
+			}
+		case *ast.IfStmt:
+			if s.Init == nil && s.Else == nil && exprString(s.Cond) == respN+" != nil" && resp == "?" {
+				// inside: only  _ = internal.FixDateHeader(resp.Header, <instant>)
+				cur := "r0"
+				for _, b := range s.Body.List {
+					as, ok := b.(*ast.AssignStmt)
+					if !ok || len(as.Lhs) != 1 || exprString(as.Lhs[0]) != "_" || len(as.Rhs) != 1 {
+						die("roundTripTimed: unsupported statement under `%s != nil`: %s", respN, stmtString(b))
+					}
+					call, ok := as.Rhs[0].(*ast.CallExpr)
+					if !ok || exprString(call.Fun) != "internal.FixDateHeader" || len(call.Args) != 2 || exprString(call.Args[0]) != respN+".Header" {
+						die("roundTripTimed: unsupported call under `%s != nil`: %s", respN, stmtString(b))
+					}
+					tv, ok := vars[exprString(call.Args[1])]
+					if !ok {
+						die("roundTripTimed: FixDateHeader with an instant that has not been read: %s", exprString(call.Args[1]))
+					}
+					cur = fmt.Sprintf("with_hdr (%s) (fix_date_header (p_hdr (%s)) %s)", cur, cur, tv)
+				}
+				return fmt.Sprintf("match rep with\n  | RErr => %s\n  | RResp r0 => %s\n  end", tr(rest, "nil"), tr(rest, cur))
+			}
+		case *ast.ReturnStmt:
+			if len(s.Results) == 0 {
+				a, ok1 := vars[startN]
+				b, ok2 := vars[endN]
+				if !ok1 || !ok2 {
+					die("roundTripTimed: returns before both instants were read")
+				}
+				switch resp {
+				case "nil":
+					return fmt.Sprintf("c RErr %s %s", a, b)
+				case "?", "":
+					die("roundTripTimed: returns a reply that was not examined")
+				default:
+					return fmt.Sprintf("c (RResp (%s)) %s %s", resp, a, b)
+				}
+			}
+		}
+		die("roundTripTimed: unsupported statement: %s", stmtString(st))
+		return ""
+	}
+	body := tr(fd.Body.List, "")
+	fmt.Fprintf(out, "(* roundtripper.go: func roundTripTimed — (resp, err) as one origin_reply: the scripted origins return a response or an error *)\n")
+	fmt.Fprintf(out, "Definition src_round_trip_timed {A : Type} (q : request) (c : origin_reply -> Z -> Z -> prog A) : prog A :=\n  %s.\n\n", body)
+}
